@@ -24,28 +24,6 @@ fn check_enum_number(e: &EnumDecl, sorted: &[u32], n: u32, rep: &mut Report, rp:
     }
 }
 
-/// Candidate numbers around declared values and powers of two.
-fn edge_numbers(sorted: &[u32]) -> Vec<u32> {
-    let mut s = BTreeSet::new();
-    for v in sorted {
-        for d in -2i64..=2 {
-            let x = *v as i64 + d;
-            if (0..=u32::MAX as i64).contains(&x) {
-                s.insert(x as u32);
-            }
-        }
-    }
-    for k in 0..32 {
-        let p = 1u32 << k;
-        s.insert(p);
-        s.insert(p.wrapping_sub(1));
-        s.insert(p.wrapping_add(1));
-    }
-    s.insert(u32::MAX);
-    s.insert(u32::MAX - 1);
-    s.into_iter().collect()
-}
-
 fn perturb(name: &str) -> Vec<String> {
     let mut v = vec![name.to_lowercase(), name.to_uppercase(), format!("{}_", name), format!("_{}", name), format!("{} ", name), format!(" {}", name), format!("{}0", name), String::new()];
     if name.len() > 1 {
@@ -80,20 +58,50 @@ pub fn run(cfg: &Cfg, rep: &mut Report) {
 
     // ---- stage: edges (quick and thorough, also under Miri)
     let n_e = enums.len() as u64;
-    run_stage(cfg, rep, "enum-edges", n_e, |idx, _rng, r| {
-        let e = &enums[idx as usize];
-        let s = &sorted[idx as usize];
-        let cands = edge_numbers(s);
-        let dense = if miri { 1200 } else { 70_000 };
-        for n in cands.iter().copied().chain(0..dense) {
-            check_enum_number(e, s, n, r, &|| crate::util::replay_ref(cfg, "enum-edges", idx));
+    const SPLIT: u64 = 8;
+    run_stage(cfg, rep, "enum-edges", n_e * SPLIT, |idx, _rng, r| {
+        let ei = (idx / SPLIT) as usize;
+        let part = idx % SPLIT;
+        let e = &enums[ei];
+        let s = &sorted[ei];
+        let dense: u32 = if miri { if cfg.tier_thorough { 1200 } else { 300 } } else { 70_000 };
+        let mut n_checked = 0u64;
+        let rp = || crate::util::replay_ref(cfg, "enum-edges", idx);
+        // neighbours of every declared value (duplicates are harmless, so no set is built: cheap under Miri)
+        for (pos, v) in s.iter().enumerate() {
+            if pos as u64 % SPLIT != part {
+                continue;
+            }
+            for dlt in -2i64..=2 {
+                let x = *v as i64 + dlt;
+                if (0..=u32::MAX as i64).contains(&x) {
+                    check_enum_number(e, s, x as u32, r, &rp);
+                    n_checked += 1;
+                }
+            }
         }
-        r.count("numbers_checked", cands.len() as u64 + dense as u64);
-        r.evaluations += cands.len() as u64 + dense as u64;
-        for v in s {
-            r.nontrivial(format!("{}={}", e.name, v));
+        for k in 0..32u32 {
+            if k as u64 % SPLIT == part {
+                for x in [1u32 << k, (1u32 << k).wrapping_sub(1), (1u32 << k).wrapping_add(1), u32::MAX - k] {
+                    check_enum_number(e, s, x, r, &rp);
+                    n_checked += 1;
+                }
+            }
         }
-        r.nontrivial(format!("{}:undeclared", e.name));
+        for n in 0..dense {
+            if n as u64 % SPLIT == part {
+                check_enum_number(e, s, n, r, &rp);
+                n_checked += 1;
+            }
+        }
+        r.count("numbers_checked", n_checked);
+        r.evaluations += n_checked;
+        if part == 0 {
+            for v in s {
+                r.nontrivial(format!("{}={}", e.name, v));
+            }
+            r.nontrivial(format!("{}:undeclared", e.name));
+        }
     });
     let n_m = masks.len() as u64;
     run_stage(cfg, rep, "mask-edges", n_m, |idx, rng, r| {
